@@ -8,7 +8,8 @@ from vlib import Report
 W = os.path.join(vlib.BUILD, "X01")
 SRCS = ["src/control/PID.cpp", "src/signal/FirstOrderButterworth.cpp", "src/pointset/algorithms/Correspondence.cpp",
         "src/regression/ransac/Ransac.cpp", "src/regression/ransac/RansacIterations.cpp", "src/regression/ransac/RansacModel.cpp",
-        "src/regression/leastsquares/NLSE.cpp", "src/regression/leastsquares/LeastSquares.cpp"]
+        "src/regression/leastsquares/NLSE.cpp", "src/regression/leastsquares/LeastSquares.cpp",
+        "src/regression/leastsquares/MEstimator.cpp"]
 
 
 PIPE_SRCS = ["src/transform/estimation/FindRigidTransformationBySVD.cpp", "src/transform/estimation/FindRigidTransformationByLeastSquares.cpp",
